@@ -114,6 +114,15 @@ func init() {
 				return sanitizeModel(m, a[1].(Str))
 			}
 		}
+		// a pattern that is one character class (or one literal byte) replaced by one plain byte: byte-wise
+		// ite over symbolic ASCII text
+		if _, ok := a[1].(Str).Concrete(); !ok {
+			if r, ok := a[2].(Str).Concrete(); ok && len(r) == 1 && r[0] != '$' {
+				if out, ok := m.symReplaceClass(re, a[1].(Str), r[0]); ok {
+					return out
+				}
+			}
+		}
 		return CStr(re.ReplaceAllString(m.concStr(a[1], "Regexp.ReplaceAllString"), m.concStr(a[2], "Regexp.ReplaceAllString")))
 	})
 	reg("(*regexp.Regexp).ReplaceAllLiteralString", func(m *Machine, fr *frame, a []Value) Value {
